@@ -659,10 +659,7 @@ def run_encoded(ck, proof_ok=None):
 
     # ---- directed: empty arrays at every level; the known quirk; arrays of arrays
     directed = [(directed_empty, "empty"), (directed_quirk, "quirk")]
-    if KEY_AOA in ck.known:
-        directed.append((directed_aoa, "aoa"))
-    else:
-        ck.extra["encoded_arrays_of_arrays_probe"] = "not run (finding key %s not registered)" % KEY_AOA
+    directed.append((directed_aoa, "aoa"))
     for gen, tag in directed:
         for variant in range(2 if quick else 6):
             S, op, sets = gen(rng)
